@@ -38,6 +38,7 @@ const (
 	ekCorruptTwin        // an ed25519 signed transfer followed by a copy whose signature bytes were altered (no longer verifies)
 	ekHugeAmount         // a correctly signed transfer or conversion whose amount does not fit in int64
 	ekReformattedTwin    // a valid transfer followed by a copy whose JSON content got extra whitespace (signature ids reused)
+	ekTrailingBytes      // a correctly signed entry whose content is a valid batch followed by further bytes
 	ekKinds
 )
 
@@ -150,6 +151,11 @@ func vrtMakeEntry(kind int, hash *factom.Bytes32, blockTime int64, height uint32
 			batch = vrtTransferBatch(A, B, huge)
 		}
 		e.Content = vrt.Blob(vrtRawBatch{Version: 1, Transactions: batch.Transactions})
+		vrt.SignEntry(&e, salt, []int{0}, []bool{false}, 0, false)
+		sp.valid = false
+	case ekTrailingBytes:
+		// not a JSON document (one value, then more bytes); the signer signed exactly these bytes
+		e.Content = vrt.WithTrailing(vrt.Blob(batch))
 		vrt.SignEntry(&e, salt, []int{0}, []bool{false}, 0, false)
 		sp.valid = false
 	case ekExtraExtID:
@@ -497,6 +503,9 @@ func VerifTxBlock() {
 		want, known := ref.status[*s.hash]
 		if !known {
 			vrt.Assert("C05.rejected-entry-has-no-history", rows == 0 && vrtCount(tx, "pn_transaction_batch_holding", s.hash) == 0 && vrtCount(tx, "pn_address_transactions", s.hash) == 0)
+			if s.kind == ekTrailingBytes || s.kind == ekReformattedTwin || s.kind == ekHugeAmount {
+				vrt.Assert("C20.entry-that-is-not-a-canonical-batch-is-not-accepted", rows == 0)
+			}
 			continue
 		}
 		vrt.Assert("C06.one-history-record-per-entry", rows == 1)
